@@ -172,7 +172,7 @@ impl World {
         // once / atomic operations while one of the state-filling modules (grid/many) runs to completion on the
         // other worker: a table that is emptied or wraps while somebody sits between two of its critical sections
         {
-            let many: Vec<usize> = pool.iter().copied().filter(|i| tasks[*i].name.starts_with("w2/grid/many/") && tasks[*i].opt_name == "own" && tasks[*i].comments && !tasks[*i].script && info[*i].steps < 400_000).collect();
+            let many: Vec<usize> = pool.iter().copied().filter(|i| tasks[*i].name.starts_with("w2/grid/many/") && tasks[*i].opt_name == "own" && tasks[*i].comments && !tasks[*i].script && info[*i].steps < 490_000).collect();
             let mut seen: BTreeSet<(usize, usize, u32)> = BTreeSet::new();
             for (site, v) in &by_site {
                 if !site.starts_with("sync.") {
